@@ -103,6 +103,8 @@ struct Exec {
     failed_polls: u64,
     /// transactions the node answered 'already in block chain' for
     already_in_chain: BTreeSet<Txid>,
+    /// lossy reorgs are honoured (see Op::Reorg)
+    lossy_allowed: bool,
 }
 
 fn viol(sig: &str, msg: String) -> Violation {
@@ -147,6 +149,7 @@ impl Exec {
             crash_mid_poll: false,
             failed_polls: 0,
             already_in_chain: BTreeSet::new(),
+            lossy_allowed: true,
         })
     }
 
@@ -317,14 +320,16 @@ impl Exec {
                     self.mine_one(*take, &[]);
                 }
             }
-            Op::Reorg { depth, extra, first, later_at, later } => {
+            Op::Reorg { depth, extra, first, later_at, later, evict } => {
                 let depth = (*depth as usize).min(self.node.lock().active.len().saturating_sub(3));
                 let n_new = depth + *extra as usize;
                 let mut contents: Vec<Vec<Transaction>> = vec![vec![]; n_new];
                 contents[0] = first.iter().map(|r| tx_of(*r)).collect();
                 let at = (1 + *later_at as usize).min(n_new - 1);
                 contents[at].extend(later.iter().map(|r| tx_of(*r)));
-                self.node.lock().reorg(depth, &contents);
+                // a lossy reorg is only lossy while the runs that will be compared are still in step (no crash / catch-up yet):
+                // once a crash has shifted the timing, what sits in the disconnected blocks legitimately differs between them
+                self.node.lock().reorg(depth, &contents, *evict && self.lossy_allowed);
             }
             Op::Poll => {
                 let r = self.tower.as_mut().unwrap().poll();
@@ -433,6 +438,7 @@ pub fn execute(h: &History, crash_at: u64, variant: Option<(usize, bool)>, down_
         }
         if let Some((k, skip)) = variant {
             if i == k {
+                ex.lossy_allowed = false;
                 if !skip {
                     let _ = ex.step(op);
                 }
@@ -446,6 +452,7 @@ pub fn execute(h: &History, crash_at: u64, variant: Option<(usize, bool)>, down_
         if let Err(_) = ex.step(op) {
             let tag = faults::fired().unwrap_or("?");
             crash = Some(CrashInfo { op_idx: i, tag, n: crash_at });
+            ex.lossy_allowed = false;
             ex.tower = None;
             let snap = Snapshot::read(&ex.dir.join("teos_db.sql3"));
             row_at_crash = Some(snap.appointments.iter().map(|(k, r)| (k.clone(), r.blob.len())).collect());
@@ -771,6 +778,12 @@ impl Campaign for C03 {
             }
             let slack = db as u32 + 3;
             let already = out.already_in_chain.clone();
+            // What the tower does with an appointment whose penalty the node reports as already in the chain is left open by
+            // the properties (DESIGN 9.1); if a lossy reorg then takes that very block away the two runs part for good.
+            if !already.is_empty() && h.ops[ci.op_idx..].iter().any(|o| matches!(o, Op::Reorg { evict: true, .. })) {
+                rep.classes.push("lossy-reorg-after-an-already-in-chain-verdict(not judged)".into());
+                continue;
+            }
             // (the in-flight request itself counts: its own appointment may be half replaced)
             let later_uuids: BTreeSet<Vec<u8>> = h.ops[ci.op_idx..]
                 .iter()
@@ -797,6 +810,17 @@ impl Campaign for C03 {
             };
             let (c_full, r_full) = match norm(&out.fin, &full) {
                 Ok(x) => x,
+                // an in-flight request that was lost altogether: the run to compare with is the one without it (a lost renewal
+                // lets the user expire, and with the user go their appointments - "its owner expired")
+                Err(_) if matches!(op, Op::Register { .. }) && {
+                    let minus = minus_cache.entry(ci.op_idx).or_insert_with(|| execute(h, 0, Some((ci.op_idx, true)), db, &tag).fin).clone();
+                    matches!(norm(&out.fin, &minus), Ok((c_m, r_m)) if c_m == r_m)
+                } =>
+                {
+                    inflight_api += 1;
+                    rep.classes.push("in-flight-renewal-lost".into());
+                    continue;
+                }
                 Err(e) => {
                     let v = viol(&format!("appointment-dropped-on-already-in-chain:{}", match op { Op::Poll | Op::PollFail { .. } => "poll", Op::Add { .. } => "add", _ => "other" }), format!("crash at point #{n} ({}) inside op #{} {:?}, then restart: {e}", ci.tag, ci.op_idx, op));
                     let is_known = crate::known::is_known(&self.findings, &v.property, &v.signature).is_some();
@@ -928,10 +952,15 @@ pub fn run(ctx: &Ctx) -> i32 {
         return runner::replay(&C03 { findings: crate::known::load() }, p);
     }
     let n = if ctx.thorough() { 1500 } else { 100 };
-    let stats = runner::run_campaign(&C03 { findings: crate::known::load() }, ctx, n);
+    let camp = C03 { findings: crate::known::load() };
+    let regress = runner::replay_dir(&camp, "/verif/regress/c03", "");
+    let replayed = regress.evaluations;
+    let mut stats = if regress.failures.is_empty() { runner::run_campaign(&camp, ctx, n) } else { runner::Stats::default() };
+    stats.merge(regress);
     let mut ev = Evidence::default();
+    ev.extra.insert("regression_cases_replayed".into(), serde_json::json!(replayed));
     ev.level = "fault_enumeration".into();
-    ev.rule = "histories of <=14 ops from profile `crash` (register/add/broadcast/mine/reorg/poll/poll-with-failed-block-download/restart, growth up to 110 blocks); for each history EVERY crash point it passes (store/update/delete pre+post, batch-delete commit pre+post, sendrawtransaction pre+post) is armed in turn: the tower is dropped there (open transactions roll back) and rebooted on the same directory; restart invariants + final abstract state compared with the uninterrupted run (or the run without the in-flight request, partial states of that request tolerated, slot bounds enforced). evaluations = histories; counters.crash_runs = crashed executions. Non-trivial = a crash landed inside add_appointment or inside block processing; distinct = distinct sets of (crash site, op kind).".into();
+    ev.rule = "histories of <=14 ops from profile `crash` (register/add/broadcast/mine/reorg (40% of them lossy: the node does not take the disconnected blocks' transactions back into its mempool; honoured only while no crash has shifted the timing yet)/poll/poll-with-failed-block-download/restart, growth up to 110 blocks); for each history EVERY crash point it passes (store/update/delete pre+post, batch-delete commit pre+post, sendrawtransaction pre+post) is armed in turn: the tower is dropped there (open transactions roll back) and rebooted on the same directory; restart invariants + final abstract state compared with the uninterrupted run (or the run without the in-flight request, partial states of that request tolerated, slot bounds enforced). evaluations = histories; counters.crash_runs = crashed executions. Non-trivial = a crash landed inside add_appointment or inside block processing; distinct = distinct sets of (crash site, op kind).".into();
     ev.assumptions = vec![
         "sqlite's own atomic commit and the file system are trusted (a crash never tears a single statement)".into(),
         "the tower is booted by a copy of main.rs's bootstrap".into(),
